@@ -296,6 +296,28 @@ def plant_case_twins(rng, n):
     return k
 
 
+def plant_wide(rng, n):
+    """A port several hundred bits wide, connected on high bits - inside its definition and on an instance of it."""
+    topd = n.top_instance.reference
+    lib = topd.library
+    if lib is None or any(d.name == "WIDE_CELL" for d in lib.definitions):
+        return 0
+    w = rng.choice([258, 300, 600])
+    d = lib.create_definition("WIDE_CELL")
+    p = d.create_port("wide", pins=w, direction=sdn.IN)
+    c = d.create_cable("inner_wide", wires=w)
+    for k in (0, 1, w - 1, w - 2, 257, rng.randrange(257, w)):
+        if p.pins[k].wire is None:
+            c.wires[k].connect_pin(p.pins[k])
+    i = topd.create_child("wide_inst", reference=d)
+    oc = topd.create_cable("outer_wide", wires=w)
+    for k in (0, w - 1, 257, rng.randrange(257, w)):
+        op = i.pins[p.pins[k]]
+        if op.wire is None:
+            oc.wires[k].connect_pin(op)
+    return 1
+
+
 def m_property_value(r, b):
     insts = [c for d in defs_of(b) for c in d.children if "EDIF.properties" in c and c["EDIF.properties"]]
     if not insts:
@@ -467,6 +489,8 @@ def run_case(ctx, i, rng):
         ctx.count("netlists_with_planted_same_named_twins")
     if i % 4 in (1, 2):
         ctx.count("siblings_differing_only_in_case", plant_case_twins(rng, n))
+    if i % 8 == 5:
+        ctx.count("netlists_with_a_port_wider_than_256", plant_wide(rng, n))
     if i % 3 == 2:
         # a definition built stand-alone under the EDIF policy and then added to this DEFAULT-policy netlist
         g = gen_ir.graft_foreign_policy_definition(rng, n, "DEFAULT")
